@@ -72,7 +72,10 @@ func runWorker(in, out string) {
 
 // runAll runs the cases on the real code in parallel worker processes (drc.Main uses process
 // globals; every dialogue leaks a pty, so workers are short-lived).
-func runAll(cases []Case) []WOutcome {
+func runAll(cases []Case) []WOutcome { return runAllN(cases, 16) }
+
+// runAllN: at most maxWorkers worker processes (1 = serial)
+func runAllN(cases []Case, maxWorkers int) []WOutcome {
 	res := make([]WOutcome, len(cases))
 	tmp, _ := os.MkdirTemp("", "vh-c15-")
 	defer os.RemoveAll(tmp)
@@ -88,8 +91,8 @@ func runAll(cases []Case) []WOutcome {
 		jobs = append(jobs, job{lo, hi})
 	}
 	nw := runtime.NumCPU()
-	if nw > 16 {
-		nw = 16
+	if nw > maxWorkers {
+		nw = maxWorkers
 	}
 	ch := make(chan job)
 	var wg sync.WaitGroup
